@@ -35,7 +35,11 @@ def run(ctx):
         if obs["state"] != (1, 0, False):
             ctx.violation(dict(case, state=repr(obs["state"]), outcome=obs["outcome"]), "after the render the buffer stack / caller stack / nextcaller are not what they were",
                           tags=["c05.balance"])
-        # inside one function the depth of the caller stack seen by two probes in the same body never differs: covered by the model's trace
+        # a probe runs inside a function body: nextcaller is set only while the expression of a call with content is evaluated; if a probe
+        # sees it set, the next def called by name adopts a caller that is not its own
+        if any(p_[2] for p_ in obs["probes"]):
+            ctx.violation(dict(case, probes=repr(obs["probes"])[:300]), "nextcaller is still set after a call with content has ended: the next def called by name gets a stale caller",
+                          tags=["c05.stale-nextcaller"])
         req.append(core_gen.program_tok(defs, body))
         got.append((case, core_gen.model_line_of(obs)))
     ctx.generators["core_programs"] = {"cases": n}
